@@ -32,10 +32,16 @@ def versions_stage(ctx):
         if st["kind"] == "order":
             ctx.count(("order", tuple(v), tuple(t)))
             port = ebbfake.LegacyOKPort(version=vs(v))
-            got_l = ebb_serial.min_version(port, vs(t))
+            try:
+                got_l = ebb_serial.min_version(port, vs(t))
+            except (Exception, ebbfake.Endless) as ex:  # pylint: disable=broad-except
+                got_l = "raised " + type(ex).__name__
             obj = ebb3_serial.EBB3()
-            obj.parse_version(L.VERSION_LINE % vs(v))          # as connect() learns it, from the identification line
-            got_3 = obj.min_version(vs(t))
+            try:
+                obj.parse_version(L.VERSION_LINE % vs(v))          # as connect() learns it, from the identification line
+                got_3 = obj.min_version(vs(t))
+            except Exception as ex:  # pylint: disable=broad-except
+                got_3 = "raised " + type(ex).__name__
             if got_l is not exp:
                 ctx.violation("version.numeric_order_legacy", {"mode": "G", "k": "order", "version": vs(v), "threshold": vs(t), "previous": prev}, exp, repr(got_l))
             if got_3 is not exp:
@@ -178,5 +184,13 @@ def replay(rec):
     if c.get("k") in ("order", "gate"):
         c["_clause"] = rec.get("clause")
         return replay_vector(c)
+    if rec.get("clause") == "connect.supported_board_is_accepted":
+        # the stage-level observation again, in its smallest form: a supported board that answers the first probe
+        sess = L.Session("ebb_ok", False, None, lambda text: {"w": "ok", "e": 0, "o": "conf", "r": L.PyBoard().reply(text)})
+        try:
+            r = sess.run_call("connect", [], "")
+        finally:
+            sess.close()
+        return r["ret"] == ["bool", True] and not r["err_set"], {"connect_returned": r["val"], "error_recorded": r["err_set"], "raised": r.get("exc")}
     c.setdefault("start_connected", False)
     return c05.replay(rec)
